@@ -141,9 +141,16 @@ func escape(s string, m map[rune]string) string {
 			// Keys that are not printable even without their modifiers, or
 			// that would need to be escaped themselves (which makes sequences
 			// like \C-\M- ambiguous), are written as plain hexadecimal codes.
-			if unicode.IsPrint(c) && c != '\\' && c != '"' && c != '\'' {
+			switch {
+			case unicode.IsPrint(c) && c != '\\' && c != '"' && c != '\'':
 				s += string(c)
-			} else {
+			case key > 0xff:
+				// The hexadecimal notation has two digits: characters that are not
+				// printable above that (joiners, separators, private use, ...)
+				// have no notation and are written as they are, like any other
+				// character of the file.
+				s = string(key)
+			default:
 				s = fmt.Sprintf(`\x%02x`, key)
 			}
 
